@@ -59,7 +59,7 @@ func calleeName(c ssa.CallInstruction) string {
 	if b, ok := cc.Value.(*ssa.Builtin); ok {
 		return "builtin:" + b.Name()
 	}
-	return "dyn:" + descDepth(cc.Value, 2)
+	return "dyn:" + desc(cc.Value)
 }
 
 func fnName(f *ssa.Function) string {
@@ -232,6 +232,10 @@ func constString(c *ssa.Const) string {
 // labelling checks and for provenance matching.
 func desc(v ssa.Value) string { return descDepth(v, 6) }
 
+// Rendering is independent of the nesting context: the depth budget is only
+// consumed by phi edges (which may be cyclic); an overall length cap keeps
+// labels bounded.
+
 func descDepth(v ssa.Value, depth int) string {
 	if v == nil {
 		return "?"
@@ -258,7 +262,7 @@ func descDepth(v ssa.Value, depth int) string {
 		return "builtin:" + x.Name()
 	case *ssa.Alloc:
 		if sv := singleStore(x); sv != nil {
-			return descDepth(sv, depth-1)
+			return descDepth(sv, depth)
 		}
 		name := x.Comment
 		return "alloc:" + namedOf(x.Type()) + "<" + name + ">"
@@ -271,27 +275,27 @@ func descDepth(v ssa.Value, depth int) string {
 		case token.MUL:
 			return descDepth(x.X, depth)
 		case token.NOT:
-			return "!" + descDepth(x.X, depth-1)
+			return "!" + descDepth(x.X, depth)
 		case token.ARROW:
-			return "<-" + descDepth(x.X, depth-1)
+			return "<-" + descDepth(x.X, depth)
 		default:
-			return x.Op.String() + descDepth(x.X, depth-1)
+			return x.Op.String() + descDepth(x.X, depth)
 		}
 	case *ssa.IndexAddr:
 		return descDepth(x.X, depth) + "[" + descIndex(x.Index) + "]"
 	case *ssa.Index:
 		return descDepth(x.X, depth) + "[" + descIndex(x.Index) + "]"
 	case *ssa.Lookup:
-		return descDepth(x.X, depth) + "[" + descDepth(x.Index, depth-1) + "]"
+		return descDepth(x.X, depth) + "[" + descDepth(x.Index, depth) + "]"
 	case *ssa.Extract:
 		if n, ok := x.Tuple.(*ssa.Next); ok {
 			switch x.Index {
 			case 0:
-				return "rangeok(" + descDepth(rangeOperand(n), depth-1) + ")"
+				return "rangeok(" + descDepth(rangeOperand(n), depth) + ")"
 			case 1:
-				return "rangekey(" + descDepth(rangeOperand(n), depth-1) + ")"
+				return "rangekey(" + descDepth(rangeOperand(n), depth) + ")"
 			default:
-				return "rangeval(" + descDepth(rangeOperand(n), depth-1) + ")"
+				return "rangeval(" + descDepth(rangeOperand(n), depth) + ")"
 			}
 		}
 		if l, ok := x.Tuple.(*ssa.Lookup); ok && l.CommaOk {
@@ -314,11 +318,11 @@ func descDepth(v ssa.Value, depth int) string {
 	case *ssa.Call:
 		name := calleeName(x)
 		if name == "builtin:len" && len(x.Call.Args) == 1 {
-			return "len(" + descDepth(x.Call.Args[0], depth-1) + ")"
+			return "len(" + descDepth(x.Call.Args[0], depth) + ")"
 		}
 		var args []string
 		for _, a := range callArgs(x) {
-			args = append(args, descDepth(a, depth-2))
+			args = append(args, descDepth(a, depth))
 		}
 		s := "call:" + name + "(" + strings.Join(args, ",") + ")"
 		if isErrorType(x.Type()) {
@@ -345,29 +349,39 @@ func descDepth(v ssa.Value, depth int) string {
 		}
 		return "phi(" + strings.Join(sortedKeys(set), "|") + ")"
 	case *ssa.BinOp:
-		return "(" + descDepth(x.X, depth-1) + " " + x.Op.String() + " " + descDepth(x.Y, depth-1) + ")"
+		return "(" + descDepth(x.X, depth) + " " + x.Op.String() + " " + descDepth(x.Y, depth) + ")"
 	case *ssa.Slice:
+		// a slice literal / variadic argument list: render its elements
+		if al, ok := x.X.(*ssa.Alloc); ok && x.Low == nil && x.High == nil && (al.Comment == "varargs" || al.Comment == "slicelit") {
+			if els := orderedLitElems(al); els != nil {
+				var parts []string
+				for _, e := range els {
+					parts = append(parts, descDepth(e, depth))
+				}
+				return "{" + strings.Join(parts, ",") + "}"
+			}
+		}
 		s := descDepth(x.X, depth) + "["
 		if x.Low != nil {
-			s += descDepth(x.Low, depth-1)
+			s += descDepth(x.Low, depth)
 		}
 		s += ":"
 		if x.High != nil {
-			s += descDepth(x.High, depth-1)
+			s += descDepth(x.High, depth)
 		}
 		return s + "]"
 	case *ssa.MakeClosure:
 		return "closure:" + descDepth(x.Fn, depth)
 	case *ssa.TypeAssert:
-		return "assert(" + descDepth(x.X, depth-1) + "," + abbrev(types.TypeString(x.AssertedType, nil)) + ")"
+		return "assert(" + descDepth(x.X, depth) + "," + abbrev(types.TypeString(x.AssertedType, nil)) + ")"
 	case *ssa.MakeMap:
 		return "makemap:" + abbrev(types.TypeString(x.Type(), nil))
 	case *ssa.MakeSlice:
 		return "makeslice:" + abbrev(types.TypeString(x.Type(), nil))
 	case *ssa.Range:
-		return "range(" + descDepth(x.X, depth-1) + ")"
+		return "range(" + descDepth(x.X, depth) + ")"
 	case *ssa.Next:
-		return "next(" + descDepth(rangeOperand(x), depth-1) + ")"
+		return "next(" + descDepth(rangeOperand(x), depth) + ")"
 	}
 	return fmt.Sprintf("%T", v)
 }
@@ -381,6 +395,43 @@ func descIndex(v ssa.Value) string {
 		return "const:" + constString(c)
 	}
 	return "@" + v.Name()
+}
+
+// orderedLitElems returns the values stored at constant indices of a local
+// array literal, in index order (nil if some element is missing).
+func orderedLitElems(al *ssa.Alloc) []ssa.Value {
+	pt, ok := al.Type().Underlying().(*types.Pointer)
+	if !ok {
+		return nil
+	}
+	arr, ok := pt.Elem().Underlying().(*types.Array)
+	if !ok || arr.Len() > 8 {
+		return nil
+	}
+	out := make([]ssa.Value, arr.Len())
+	for _, r := range *al.Referrers() {
+		ia, ok := r.(*ssa.IndexAddr)
+		if !ok {
+			continue
+		}
+		k, ok := ia.Index.(*ssa.Const)
+		if !ok {
+			return nil
+		}
+		var idx int64
+		fmt.Sscan(constString(k), &idx)
+		for _, rr := range *ia.Referrers() {
+			if st, ok := rr.(*ssa.Store); ok && st.Addr == ia && idx >= 0 && idx < int64(len(out)) {
+				out[idx] = st.Val
+			}
+		}
+	}
+	for _, e := range out {
+		if e == nil {
+			return nil
+		}
+	}
+	return out
 }
 
 func rangeOperand(n *ssa.Next) ssa.Value {
